@@ -198,6 +198,8 @@ pub enum Act {
     Stop,
     Burn { iters: u16 },
     Context,
+    /// return NUMBER and BLOCKHASH(NUMBER-1) (block context that simulations must share with the next transaction)
+    ReturnBlockInfo,
 }
 
 #[derive(Clone, Debug, Serialize, Deserialize, PartialEq, Eq, Hash)]
@@ -344,6 +346,11 @@ fn emit_act(a: &mut Asm, act: &Act, env: &Env) {
             a.push_label(l).op(JUMPI).op(POP);
         }
         Act::Context => emit_context(a),
+        Act::ReturnBlockInfo => {
+            a.op(NUMBER).push_u(0).op(MSTORE);
+            a.push_u(1).op(NUMBER).op(SUB).op(BLOCKHASH).push_u(32).op(MSTORE);
+            a.push_u(64).push_u(0).op(RETURN);
+        }
     }
 }
 
@@ -494,6 +501,7 @@ fn leaf_act(cfg: ProgCfg) -> BoxedStrategy<Act> {
         (1, Just(Act::Invalid).boxed()),
         (1, Just(Act::Stop).boxed()),
         (1, (0u16..cfg.max_burn.max(1)).prop_map(|iters| Act::Burn { iters }).boxed()),
+        (1, Just(Act::ReturnBlockInfo).boxed()),
     ];
     if cfg.context {
         v.push((2, Just(Act::Context).boxed()));
